@@ -1528,8 +1528,10 @@ fn read_subframes<R: BitRead>(
                 Some(side_bps) => {
                     read_subframe(&mut reader, side_bps, side)?;
 
+                    // side samples of a malformed frame may be anything that
+                    // fits the subframe, so reconstruct modulo 2^32
                     left.iter().zip(side.iter_mut()).for_each(|(left, side)| {
-                        *side = *left - *side;
+                        *side = left.wrapping_sub(*side);
                     });
                 }
                 None => {
@@ -1547,7 +1549,7 @@ fn read_subframes<R: BitRead>(
 
                     left.iter().zip(side_i64).zip(side.iter_mut()).for_each(
                         |((left, side_i64), side)| {
-                            *side = (*left as i64 - side_i64) as i32;
+                            *side = (*left as i64).wrapping_sub(side_i64) as i32;
                         },
                     );
                 }
@@ -1565,7 +1567,7 @@ fn read_subframes<R: BitRead>(
                     read_subframe(&mut reader, header.bits_per_sample.into(), right)?;
 
                     side.iter_mut().zip(right.iter()).for_each(|(side, right)| {
-                        *side += *right;
+                        *side = side.wrapping_add(*right);
                     });
                 }
                 None => {
@@ -1584,7 +1586,7 @@ fn read_subframes<R: BitRead>(
 
                     side.iter_mut().zip(side_i64).zip(right.iter()).for_each(
                         |((side, side_64), right)| {
-                            *side = (side_64 + *right as i64) as i32;
+                            *side = side_64.wrapping_add(*right as i64) as i32;
                         },
                     );
                 }
